@@ -611,7 +611,26 @@ def _is_module_const(repo, rel, name):
         if isinstance(st, ast.Assign):
             for t in st.targets:
                 if isinstance(t, ast.Name) and t.id == name and isinstance(st.value, ast.Constant): return True
+        # a non-empty literal table (formulas, kernels, names) that nothing in the module ever mutates or rebinds
+        tgt = st.targets[0] if isinstance(st, ast.Assign) and len(st.targets) == 1 else st.target if isinstance(st, ast.AnnAssign) else None
+        val = getattr(st, "value", None)
+        if isinstance(tgt, ast.Name) and tgt.id == name and isinstance(val, (ast.Dict, ast.Tuple, ast.List, ast.Set)) and (getattr(val, "keys", None) or getattr(val, "elts", None)):
+            return _never_mutated(mod, name)
     return False
+
+
+_MUTATING_METHODS = {"update", "append", "extend", "insert", "pop", "popitem", "clear", "setdefault", "remove", "add", "discard", "sort", "reverse", "__setitem__", "__delitem__"}
+
+
+def _never_mutated(mod, name):
+    binds = 0
+    for n in ast.walk(mod):
+        if isinstance(n, (ast.Global, ast.Nonlocal)) and name in n.names: return False
+        if isinstance(n, ast.Name) and n.id == name and isinstance(n.ctx, (ast.Store, ast.Del)): binds += 1
+        if isinstance(n, ast.Subscript) and isinstance(n.value, ast.Name) and n.value.id == name and isinstance(n.ctx, (ast.Store, ast.Del)): return False
+        if isinstance(n, ast.Call) and isinstance(n.func, ast.Attribute) and isinstance(n.func.value, ast.Name) and n.func.value.id == name and n.func.attr in _MUTATING_METHODS: return False
+        if isinstance(n, ast.AugAssign) and isinstance(n.target, ast.Name) and n.target.id == name: return False
+    return binds == 1
 
 
 # ---------------------------------------------------------------------------- R7 band mask
@@ -1009,6 +1028,12 @@ def _strip_finite(x):
 
 def _proven_finite(path, leaf, jvar):
     """the path contains isfinite(E) taken true for this very element, or `all(isfinite(E'))` taken true for an array whose element is this leaf."""
+    tested = [getattr(c_, "finite_elem", None) for c_, p_ in path if p_ and getattr(c_, "finite_elem", None) is not None]
+    if tested:
+        # a value built (by sums / products with finite coefficients) from quantities each of which was tested finite on this path
+        y = leaf.map_atoms(lambda a: X.var("_finite") if a.tag == "fn" and a.name == "finite0" else X.atom(a))
+        raw = [a for a in y.all_atoms() if a.tag == "fn" and (a.name.startswith("OUT_") or a.name == "finite_big")]
+        if raw and all(any(t.eq(X.atom(a)) for t in tested) for a in raw): return True
     for cond, pol in path:
         if not pol: continue
         fo = getattr(cond, "finite_elem", None)
